@@ -789,6 +789,7 @@ class Container:
                 raise ValueError(f"Not enough mixture left in source container ({source_container.name}). " +
                                  f"Only {Unit.convert_from_storage(source_container.volume, 'mL')} mL available, " +
                                  f"{Unit.convert_from_storage(volume_to_transfer, 'mL')} mL needed.")
+            requested, available = volume_to_transfer, source_container.volume
             ratio = volume_to_transfer / source_container.volume
 
         elif unit == 'g':
@@ -797,20 +798,30 @@ class Container:
             for substance, amount in source_container.contents.items():
                 source_unit = 'U' if substance.is_enzyme() else config.moles_storage_unit
                 total_mass += Unit.convert_from(substance, amount, source_unit, "g")
+            requested, available = mass_to_transfer, total_mass
             ratio = mass_to_transfer / total_mass
         elif unit == 'mol':
             moles_to_transfer = Unit.convert_to_storage(quantity_to_transfer, 'mol')
             total_moles = sum(amount for substance, amount in source_container.contents.items()
                               if not substance.is_enzyme())
+            requested, available = moles_to_transfer, total_moles
             ratio = moles_to_transfer / total_moles
         elif unit == 'U':
             total_activity = sum(amount for substance, amount in source_container.contents.items()
                                  if substance.is_enzyme())
             if total_activity == 0:
                 raise ValueError("There are no enzymes in the source container.")
+            requested, available = quantity_to_transfer, total_activity
             ratio = quantity_to_transfer / total_activity
         else:
             raise ValueError("Invalid quantity unit.")
+
+        # More than the source holds cannot be transferred. A difference that is only rounding (absolute, at the
+        # internal precision, or relative, in the last digits of a float) is not "more": it takes everything.
+        if (round(requested - available, config.internal_precision) > 0
+                and round(ratio, config.internal_precision) > 1):
+            raise ValueError(f"Not enough mixture left in source container ({source_container.name}).")
+        ratio = min(ratio, 1.0)
 
         source_container, to = deepcopy(source_container), deepcopy(self)
         for substance, amount in source_container.contents.items():
